@@ -238,6 +238,24 @@ theorem score_fifo (times : List Int) (x y : Int × Nat) (h : [x, y].Sublist tim
   rw [score_listing]
   exact insertAll_fifo _ [] List.Pairwise.nil x y h hle
 
+/-! ### users of the queue: parallel pattern streams (`Ppar`) -/
+
+/-- For every number of children and every script of deltas (zero deltas and ties included) the merge
+    `Ppar.__embed__` performs through the heap queue is the merge through the sorted list: the next event
+    always comes from the child at the head (earliest time, first re-queued first among equal times), a
+    child that yielded is re-queued as the latest of its new time, an ended child costs one silent event
+    up to the next pending time. -/
+theorem ppar_refines (rem : List (List Int)) : ppar rem = pparS rem := by
+  obtain ⟨h1, h2⟩ := pparInit_refines rem.length
+  unfold ppar pparS
+  rw [pparLoop_refines _ _ h2]
+  simp only [h1]
+
+/-- three children at the same times, the first with zero deltas: first in, first out among equals
+    (`a0 b0 c0 a1 a2 …`, never `a0 a1 a2 b0 c0`) -/
+example : (ppar [[0, 0, 1], [1], [1]]).map Prod.fst
+    = [some 0, some 1, some 2, some 0, some 0, none, none] := by decide
+
 /-! Non-vacuity (scheduler): tasks 0,1 of clock key 0/1 on one beat, task 0 re-scheduled by a new
     clock task 2 with the same key, then a tempo change. -/
 def exKey (ct : Nat) : Nat := if ct = 2 then 0 else ct
